@@ -549,6 +549,7 @@ def run(rep, tier, seed, only=None):
     rep.bounds = {"sub/compare": "all widths <=6 (quick, half of the larger pairs) / <=10 (thorough), both endiannesses; spot 32..128", "div_mod": "monolithic n<=9 (quick) / <=12 (thorough)",
                   "sqrt": "n<=16 (quick) / <=24, 28, 32 (thorough; 40 does not finish in 300 s)", "equality": "n<=6 / <=8, every 0<=num<=2^(n+1) for small n", "plus_one": "inp_len,out_len<=6 / <=10, add_outputs both, default result labels",
                   "gadgets": "n in {1,2,4}, named/unnamed results, add_outputs both, three host kinds"}
+    rep.bounds['requested result labels'] = "gadget cases with the labels '', '0', ' ' among the requested result labels; the labels returned are the labels asked for"
     rep.outside = ["negative num for the equality gadget (undocumented domain)", "width 0", "widths above the listed ones"]
     rep.rule = "case = (generator, widths, endianness, constant/options, host kind); operand values quantified by z3"
     rep.explanation = "z3 decides each bit-vector specification for all operand values per enumerated configuration; outputs-marked-iff-asked, fresh gates only, old gates unchanged per instance"
